@@ -36,7 +36,7 @@ from hypothesis import strategies as st
 from vlib import gen, findings
 from vlib import refmat as rm
 from vlib.build import build_obs, samples as recipe_samples, idl_arg, to_complex
-from vlib.core import Sub, Skip, require
+from vlib.core import spec_hash, Sub, Skip, require
 from vlib.refobs import RefObs, combine, cmp_obs
 
 PROPERTY = 'C10'
@@ -301,6 +301,9 @@ class Case:
         self.spec = spec
         self.pe = [build_obs(s) for s in spec['ops']]
         self.ref = [RefObs.from_spec(s) for s in spec['ops']]
+        # memory layout in which the observable matrices are handed over: a pure function of the spec (every fourth case each:
+        # Fortran order, transposed view of a C-ordered array, column slice of a larger array)
+        self.mem = spec.get('mem') or ['C', 'F', 'T', 'slice'][int(spec_hash(spec), 16) % 4]
 
     def _pe_part(self, p):
         return self.pe[p['o']] if 'o' in p else p['num']
@@ -324,6 +327,17 @@ class Case:
             else:
                 x = self._pe_part(e)
             out[k // c, k % c] = x
+        if self.mem == 'F':
+            return np.asfortranarray(out)
+        if self.mem == 'T':
+            t = np.empty((c, r), dtype=object)
+            t[...] = out.T
+            return t.T
+        if self.mem == 'slice':
+            big = np.empty((r, c + 1), dtype=object)
+            big[:, :c] = out
+            big[:, c] = 0.25
+            return big[:, :c]
         return out
 
     def ref_matrix(self, m):
@@ -489,6 +503,7 @@ def entry_labels(mats):
 def finish(spec, mats, labs, extra_nt=False):
     ll, multi = layout_labels(spec)
     labs = set(labs) | ll | entry_labels(mats)
+    labs.add('mem:' + (spec.get('mem') or ['C', 'F', 'T', 'slice'][int(spec_hash(spec), 16) % 4]))
     nt = multi or any(mat_is_cplx(m) for m in mats) or len(mats) >= 3 or extra_nt
     return {'nt': bool(nt), 'cls': sorted(labs)}
 
@@ -1042,6 +1057,22 @@ def jack_oracle(spec):
     subs = spec['subs']
     fn = spec['fn']
     what = '%s(%s)' % (fn, subs) if fn == 'einsum' else 'jack_matmul of %d factors' % len(pes)
+    primed = int(spec_hash(spec), 16) % 3 == 0
+    if primed:
+        # state between calls: the same array objects held other observables in a call just before (entries are assigned in
+        # place, as a user filling a matrix in a loop does); the result must be that of the entries the arrays hold now
+        saved = []
+        for pa in pes:
+            if pa.dtype == object:
+                idx0 = tuple(0 for _ in pa.shape)
+                saved.append((pa, idx0, pa[idx0]))
+                pa[idx0] = pa[idx0] * 2.0 + 1.0
+        try:
+            pe.linalg.jack_matmul(*pes) if fn == 'jack_matmul' else pe.linalg.einsum(subs, *pes)
+        except Exception:
+            pass
+        for pa, idx0, orig in saved:
+            pa[idx0] = orig
     if fn == 'jack_matmul':
         res = pe.linalg.jack_matmul(*pes)
     else:
@@ -1116,6 +1147,67 @@ def jack_oracle(spec):
 
 # ==================================================================================================================
 
+# ==================================================================================================================
+# Cholesky of a hermitian positive definite matrix of complex observables: either declined (the library documents
+# "not implemented for CObs") or a lower triangular L with L L^h = A - never a matrix that is neither
+
+@st.composite
+def cchol_case(draw, tier):
+    n = draw(st.sampled_from([2, 2, 3]))
+    pool = Pool(draw, tier)
+    m = draw(complex_matrix(pool, n, True, 0.0))
+    return {'ops': pool.ops, 'mats': [m], 'shift': draw(gen.fl(0.5, 2.0))}
+
+
+def cchol_oracle(spec):
+    import pyerrors as pe
+    m = spec['mats'][0]
+    case = Case(spec)
+    n = m['rows']
+    Z = case.pe_matrix(m)
+    Zh = np.empty((n, n), dtype=object)
+    for i in range(n):
+        for j in range(n):
+            Zh[i, j] = Z[j, i].conjugate() if isinstance(Z[j, i], pe.CObs) else np.conj(Z[j, i])
+    A = pe.linalg.matmul(Z, Zh)
+    for i in range(n):
+        A[i, i] = pe.CObs(A[i, i].real + spec['shift'], A[i, i].imag * 0.0)       # hermitian: real diagonal
+    for i in range(n):
+        for j in range(i):
+            A[i, j] = A[j, i].conjugate()
+    av = np.array([[complex(A[i, j].real.value, A[i, j].imag.value) for j in range(n)] for i in range(n)])
+    if np.min(np.linalg.eigvalsh(av)) < 0.1:
+        raise Skip('not safely positive definite')
+    what = 'cholesky of a hermitian positive definite %dx%d matrix of complex observables' % (n, n)
+    try:
+        L = pe.linalg.cholesky(A)
+    except Exception as e:
+        return finish(spec, [m], {'n:%d' % n, 'complex_cholesky:declined:' + type(e).__name__}, extra_nt=True)
+    require(isinstance(L, np.ndarray) and L.shape == (n, n), what + ': result is not an n x n array', type(L).__name__)
+    Lh = np.empty((n, n), dtype=object)
+    for i in range(n):
+        for j in range(n):
+            x = L[j, i]
+            Lh[i, j] = x.conjugate() if isinstance(x, pe.CObs) else (x if isinstance(x, pe.Obs) else np.conj(x))
+    P = pe.linalg.matmul(L, Lh)
+    for i in range(n):
+        for j in range(n):
+            for part in ('real', 'imag'):
+                want, got = getattr(A[i, j], part), getattr(P[i, j], part)
+                rf = RefObs.from_pe(want)
+                rf.vmag = max(rf.vmag, 1.0)
+                for k_ in rf.mag:
+                    rf.mag[k_] = max(rf.mag[k_], 0.01)
+                cmp_obs(rf, got if isinstance(got, pe.Obs) else pe.cov_Obs(float(got), 0.0, 'plain_number'),
+                        what + ': %s part of (L L^h)[%d,%d] vs A' % (part, i, j), rtol=1e-8, vtol=1e-9, atol_scale=1e-9, check_rv=False)
+    for i in range(n):
+        for j in range(i + 1, n):
+            x = L[i, j]
+            v = complex(x.real.value, x.imag.value) if isinstance(x, pe.CObs) else complex(getattr(x, 'value', x))
+            require(abs(v) <= 1e-9, what + ': L is not lower triangular, entry (%d,%d) = %r' % (i, j, v))
+    return finish(spec, [m], {'n:%d' % n, 'complex_cholesky:factor_returned'}, extra_nt=True)
+
+
 SUBS = [
     Sub('matmul', matmul_case, matmul_oracle, {'quick': 120, 'thorough': 1400}, {'quick': 3, 'thorough': 16},
         doc='matmul equals the explicit sum of element products (real, complex, mixed, plain entries, 2-4 factors)'),
@@ -1137,4 +1229,6 @@ SUBS = [
         {'quick': 1, 'thorough': 6}, doc='jackknife product: independent jackknife, exact product up to the second-order bound'),
     Sub('einsum', lambda tier: jack_case(tier, 'einsum'), jack_oracle, {'quick': 150, 'thorough': 2000},
         {'quick': 2, 'thorough': 8}, doc='jackknife einsum: independent jackknife, exact contraction up to the second-order bound'),
+    Sub('cholesky_complex', cchol_case, cchol_oracle, {'quick': 60, 'thorough': 800}, {'quick': 1, 'thorough': 4},
+        doc='cholesky of a hermitian positive definite CObs matrix: declined, or L lower triangular with L L^h = A', max_skip_frac=0.5),
 ]
